@@ -1,6 +1,7 @@
 import PPProofs.Lemmas.DiagramLinks
 import PPProofs.Lemmas.DiagramRoot
 import PPProofs.Lemmas.DiagramFilled
+import PPProofs.Lemmas.DiagramContent
 import PPProofs.Props.C20
 /-!
 # C20 — the clauses links_resolve / root_first / no_empty_placeholder under decidable hypotheses
@@ -214,7 +215,8 @@ example : rootFirstHyp gFwdRoot opts0 0 = false ∧ rootFirstHyp gRootOnCycle op
     Missing for the full clause `noEmptyPlaceholder ds = true`:
     (1) the `content` of a diagram entry is a *copy* of the `item` slot when the extracted partial is a
         `Group` (:420-423); that it is a reference needs "extraction happens only after the element's
-        own conversion is complete" (an invariant relating the lookup table to the heap), not proved;
+        own conversion is complete" (an invariant relating the lookup table to the heap) - proved
+        below in `no_empty_placeholder_tree_partial`;
     (2) `resolve` (the model of `resolve_partial`) runs on fuel `|heap|+1` and yields `rawNone` for a
         dangling reference; that neither happens needs the acyclicity / in-bounds invariant of the
         partial heap, not proved.
@@ -237,6 +239,47 @@ theorem no_empty_placeholder_output_partial (g : Grammar) (o : Opts) (fuel root 
   · rename_i s hs
     simp only [Option.some.injEq] at h
     exact ⟨s, hs, h.symm, convertRoot_filled g o fuel root s hd hroot hs⟩
+
+/-- **no_empty_placeholder_tree_partial** - gap (1) above closed, and the `""` half of the clause at
+    the level of the returned trees: under the same hypothesis (`drawsAll`), for all options, roots in
+    the table and returning fuels, every diagram entry's `content` is a reference (an element is
+    extracted only after its own conversion is complete, when its partial is filled: `conv_KD`) and
+    NO returned diagram contains the `""` placeholder (`Tree.hasEmptyStr`: the `Optional('')` of the
+    registered finding).  Still missing for `noEmptyPlaceholder ds = true`: that `resolve` never yields
+    `rawNone`, which on a filled heap can only come from its fuel `|heap|+1` running out or from a
+    dangling reference - gap (2), the acyclicity / in-bounds invariant of the partial heap. -/
+theorem no_empty_placeholder_tree_partial (g : Grammar) (o : Opts) (fuel root : Nat) (ds : List Named)
+    (hd : drawsAll g o = true) (hroot : root < g.length) (h : toRailroad g o fuel root = some ds) :
+    (∃ s, convertRoot g o fuel root = some s ∧ (∀ nd ∈ s.heap, nd.kw.filled = true) ∧
+      ∀ e ∈ selected s, e.content.isRef = true) ∧
+    ∀ d ∈ ds, d.tree.hasEmptyStr = false := by
+  unfold toRailroad at h
+  split at h
+  · exact absurd h (by simp)
+  · rename_i s hs
+    simp only [Option.some.injEq] at h
+    subst h
+    obtain ⟨hA, hD⟩ := convertRoot_AD g o fuel root s hd hroot hs
+    have hsel : ∀ e ∈ selected s, e.content.isRef = true := by
+      intro e he
+      have hmem : e ∈ s.diagrams.map (·.2) := by
+        unfold selected at he
+        simp only at he
+        split at he
+        · exact dedupe_sub _ _ _ he
+        · exact he
+      obtain ⟨p, hp, rfl⟩ := List.mem_map.mp hmem
+      exact hD p hp
+    refine ⟨⟨s, hs, hA, hsel⟩, ?_⟩
+    intro d hd'
+    have hperm := sortByIndex_perm ((selected s).map (entryTree s))
+    obtain ⟨e, he, rfl⟩ := List.mem_map.mp (hperm.mem_iff.mp hd')
+    have hne : e.content ≠ .empty := by
+      intro e0
+      have := hsel e he
+      rw [e0] at this; exact absurd this (by simp [Slot.isRef])
+    have := resolve_noEmptyStr s.heap hA (s.heap.length + 1) e.content hne
+    simp [entryTree, Tree.hasEmptyStr, Tree.hasEmptyStrL, this]
 
 /-- non-vacuity: the named recursive grammar satisfies the hypothesis (and its output has no
     placeholder, `named_cycle_ok`) -/
